@@ -131,7 +131,7 @@ def build_lib(variant="rel", cache_size=4, extra_flags=()):
     parent = os.path.join(BUILD, "lib")
     d = os.path.join(parent, key)
     lib = os.path.join(d, "libdsplib.a")
-    with Lock(os.path.join(BUILD, "lock-" + key)):
+    with Lock(os.path.join(BUILD, "locks", "lib-" + key)):
         if not os.path.exists(lib):
             tmp = d + ".tmp%d" % os.getpid()
             shutil.rmtree(tmp, ignore_errors=True)
@@ -176,7 +176,7 @@ def build_harness(src, libinfo, extra_srcs=(), extra_flags=(), name=None, link_l
     parent = os.path.join(BUILD, "h", name)
     d = os.path.join(parent, key)
     exe = os.path.join(d, name)
-    with Lock(os.path.join(BUILD, "lock-h-" + name + key)):
+    with Lock(os.path.join(BUILD, "locks", "h-" + name + key)):
         if not os.path.exists(exe):
             os.makedirs(d, exist_ok=True)
             comp = [libinfo["cxx"]] + libinfo["cflags"] + list(extra_flags) + libinfo["inc"] + \
@@ -204,7 +204,7 @@ def build_vrt():
     key = _hash_files([src, os.path.join(VERIF, "engine", "schedex", "vrt.h")])
     d = os.path.join(BUILD, "vrt")
     obj = os.path.join(d, "vrt-%s.o" % key)
-    with Lock(os.path.join(BUILD, "lock-vrt")):
+    with Lock(os.path.join(BUILD, "locks", "vrt")):
         if not os.path.exists(obj):
             os.makedirs(d, exist_ok=True)
             for f in os.listdir(d):
